@@ -195,6 +195,7 @@ def run_property(pid, rules_mod, repo="/repo", tier="quick", configs=None, seed=
             try:
                 narrow.check(ctx, rep, pid)
                 narrow.check_noop(ctx, rep, pid)
+                narrow.check_errno(ctx, rep, pid)
             except (Broken, AnalysisBroken, mm.Unknown) as e:
                 rep.unk(pid + ".narrow", "-", str(e))
             except Exception as e:
